@@ -131,6 +131,8 @@ def shard(ctx):
             if v in ("syntax", "raise") or rules is None:
                 ctx.unspec()
             ctx.event("verdict:" + str(v))
+            for lab in d["labels"]:
+                ctx.event("mutation:" + lab)
             nt = d["text"].count("{") >= 3
             ctx.case(key=(sdl, d["text"]), nontrivial=nt,
                      sample={"sdl": sdl, "document": d["text"], "labels": d["labels"], "library": v, "reference_rules": rules,
